@@ -13,12 +13,19 @@ preimages among `N` equally likely inputs has probability `c/N`.
 * fixed weight : `reject_unbiased` / `accept_unbiased` (accepted 64-bit words are uniform on `[0,k]`),
                  `reservoir_uniform` (every `h`-subset has exactly `(n-h)!` index-tuple preimages),
                  `hwt_positions_reservoir` (the model's positions ARE that reservoir), `hwt_weight`;
+                 `accept_iff_below_threshold`, `spec_accept_is_model`, `extra_accept_biased` (accepting ONE word of
+                 the incomplete top block `[M_k, 2^64)` gives its index one pre-image more than the others — what
+                 the correspondence stream's spec verdict says when it names such a word);
+                 `spec_positions_are_model` (the executable specification of the positions, run on the flat word
+                 stream, is the model's positions) and `fast_evaluators_are_model` (the array-backed functions the
+                 driver evaluates at degree 2^17…2^20 are the model functions, for all inputs);
 * independence : `uniform_independent`, `bounded_independent`, `zo_independent` (coefficient `i` reads only its own
                  bytes of the tape; footprints of distinct coefficients are disjoint), `hwt_signs_fresh`.
 -/
 import NflVerif.Properties.C09
 import NflVerif.Proofs.SamplersCount
 import NflVerif.Proofs.ZoCounts
+import NflVerif.Proofs.SamplersFast
 
 namespace Nfl.C12
 open Nfl Nfl.Samplers Finset
@@ -338,6 +345,79 @@ theorem hwt_signs_fresh {w : Nat} {ps : List Nat} {n h : Nat} {tape : Tape} {out
   unfold setHwt
   rw [if_neg (by omega), hc' rest']
 
+
+/-! ### the rejection threshold, the specification run, and the driver's evaluators -/
+
+/-- a word is used at step `k` iff it lies below `M_k = ⌊(2^64-1)/(k+1)⌋·(k+1)` -/
+theorem accept_iff_below_threshold (k x : Nat) :
+    accept k x = true ↔ x < Nfl.Spec.Samplers.rejThreshold k :=
+  Nfl.Spec.Samplers.accept_iff_lt_rejThreshold k x
+
+/-- the specification's formulation ("the word's block of `k+1` consecutive values is one of the complete blocks")
+is the code's test -/
+theorem spec_accept_is_model (k x : Nat) : Nfl.Spec.Samplers.specAccept k x = accept k x :=
+  Nfl.Spec.Samplers.specAccept_eq_accept k x
+
+/-- WHY every word of the incomplete top block must be rejected: if, besides the words the code accepts, ONE more
+64-bit word `w` (rejected by the code, i.e. `w ≥ M_k`) were accepted at step `k`, the index `w mod (k+1)` would have
+`R+1` accepted pre-images and every other index of `[0,k]` exactly `R = ⌊(2^64-1)/(k+1)⌋`: not uniform. -/
+theorem extra_accept_biased (k w : Nat) (hw : w < 2 ^ 64) (hrej : accept k w = false) (r : Nat) (hr : r ≤ k) :
+    #{x ∈ range (2 ^ 64) | (accept k x = true ∨ x = w) ∧ x % (k + 1) = r} =
+      sizeMax / (k + 1) + (if w % (k + 1) = r then 1 else 0) := by
+  rw [← accept_unbiased k r hr]
+  have hsplit : ({x ∈ range (2 ^ 64) | (accept k x = true ∨ x = w) ∧ x % (k + 1) = r} : Finset Nat) =
+      {x ∈ range (2 ^ 64) | accept k x = true ∧ x % (k + 1) = r} ∪ (if w % (k + 1) = r then {w} else ∅) := by
+    apply Finset.ext; intro x
+    by_cases hwr : w % (k + 1) = r
+    · simp only [hwr, if_true, Finset.mem_filter, Finset.mem_range, Finset.mem_union, Finset.mem_singleton]
+      constructor
+      · rintro ⟨hx, (ha | rfl), hm⟩
+        · exact Or.inl ⟨hx, ha, hm⟩
+        · exact Or.inr rfl
+      · rintro (⟨hx, ha, hm⟩ | rfl)
+        · exact ⟨hx, Or.inl ha, hm⟩
+        · exact ⟨hw, Or.inr rfl, hwr⟩
+    · simp only [hwr, if_false, Finset.mem_filter, Finset.mem_range, Finset.union_empty]
+      constructor
+      · rintro ⟨hx, (ha | rfl), hm⟩
+        · exact ⟨hx, ha, hm⟩
+        · exact absurd hm hwr
+      · rintro ⟨hx, ha, hm⟩
+        exact ⟨hx, Or.inl ha, hm⟩
+  rw [hsplit]
+  by_cases hwr : w % (k + 1) = r
+  · simp only [hwr, if_true]
+    rw [Finset.card_union_of_disjoint, Finset.card_singleton]
+    rw [Finset.disjoint_singleton_right]
+    simp [hrej]
+  · simp [hwr]
+
+/-- the executable specification of the positions (exact rejection + reservoir over the flat stream of served
+words, `Spec.Samplers.specPositions`) agrees with the model on every tape on which the model's position phase ends -/
+theorem spec_positions_are_model {h n : Nat} {tape : Tape} {sorted : List Nat} {rest : Tape}
+    (hp : hwtPositions h n tape = some (sorted, rest)) :
+    ∃ consumed : Tape, tape = consumed ++ rest ∧
+      Nfl.Spec.Samplers.specPositions h n (consumed.flatMap (words64 h)) = some sorted :=
+  specPositions_eq_model hp
+
+/-- the array-backed evaluators used by the driver at large degrees ARE the model functions -/
+theorem fast_evaluators_are_model :
+    (∀ w n ps h tape, setHwtFast w n ps h tape = setHwt w n ps h tape) ∧
+    (∀ h n tape, hwtPositionsFast h n tape = hwtPositions h n tape) ∧
+    (∀ w n ps tape, setUniformFast w n ps tape = setUniform w n ps tape) ∧
+    (∀ w n ps B A tape, setBoundedFast w n ps B A tape = setBounded w n ps B A tape) ∧
+    (∀ w n ps rho tape, setZOFast w n ps rho tape = setZO w n ps rho tape) :=
+  ⟨setHwtFast_eq, hwtPositionsFast_eq, setUniformFast_eq, setBoundedFast_eq, setZOFast_eq⟩
+
+/-- … and the array-backed spec predicates are the spec predicates -/
+theorem fast_spec_is_spec (n : Nat) (ps out : List Nat) :
+    Nfl.Spec.Samplers.canonicalA n ps out.toArray = Nfl.Spec.Samplers.canonical n ps out ∧
+    (∀ bound ok, Nfl.Spec.Samplers.crtConsistentA n ps out.toArray bound ok = Nfl.Spec.Samplers.crtConsistent n ps out bound ok) ∧
+    (∀ v, Nfl.Spec.Samplers.encodesA n ps out.toArray v = Nfl.Spec.Samplers.encodes n ps out v) ∧
+    (∀ cm, Nfl.Spec.Samplers.supportA n out.toArray cm = Nfl.Spec.Samplers.support n out cm) :=
+  ⟨Nfl.Spec.Samplers.canonicalA_eq n ps out, fun b ok => Nfl.Spec.Samplers.crtConsistentA_eq n ps out b ok,
+   fun v => Nfl.Spec.Samplers.encodesA_eq n ps out v, fun cm => Nfl.Spec.Samplers.supportA_eq n out cm⟩
+
 /-! ### non-vacuity -/
 
 /-- `p = 13313` (`b = 14`): residue 5 has two preimages (5 and 13318), residue 13312 has one -/
@@ -365,5 +445,17 @@ example : (List.range 8).map (fun v => centre 3 (red1 5 v)) = [0, 1, 2, -2, -1, 
 example : #{idx ∈ fwdTuples 2 2 | (resFold 2 2 (List.range 2) idx).toFinset = {0, 1}} = 2 := by decide
 
 example : accept 7 (2 ^ 64 - 1) = false ∧ accept 7 (2 ^ 64 - 9) = true := by decide
+
+/-- a late step of a degree-2^17 polynomial whose incomplete top block is longer than 2^16 words: `k = 85838`,
+`M_k = 2^64 - 82228`; the word `2^64 - 65537` lies in it (rejected), `M_k - 1` is the last accepted word, and
+accepting `2^64 - 65537` would give index `16691` one pre-image too many -/
+example : Nfl.Spec.Samplers.rejThreshold 85838 = 2 ^ 64 - 82228 ∧ accept 85838 (2 ^ 64 - 65537) = false ∧
+    accept 85838 (2 ^ 64 - 82229) = true ∧ (2 ^ 64 - 65537) % (85838 + 1) = 16691 := by decide
+
+/-- the specification run on a tiny stream: `n = 4, h = 2`, words `2^64-1` (rejected at `k = 2`), `3` (index 0 at
+`k = 2`), `5` (index 1 at `k = 3`): positions `{2,3}` -/
+example : Nfl.Spec.Samplers.specPositions 2 4 [2 ^ 64 - 1, 3, 5] = some [2, 3] := by
+  simp only [Nfl.Spec.Samplers.specPositions, mergeSort_eq_isort]
+  decide
 
 end Nfl.C12
